@@ -1792,14 +1792,75 @@ Proof.
   split; [intros H; apply In_face_b in H; vm_compute in H; discriminate|]. intros i [].
 Qed.
 
-(* a mapping applied to a joined domain forgets the orientation of the interfaces (2-D) ... *)
+(* a mapping applied to a joined domain keeps the orientation of every interface
+   (since /repo's "fix: MappedDomain keeps the orientation"; before, the physical interfaces had ornt = None in 2-D
+   and Interface.__new__ raised TypeError (tuple(None)) in 3-D) *)
+Definition map_conn_go (m : string) :=
+  fix go (l : list iface) (acc : list iface) : res (list iface) :=
+    match l with
+    | [] => Ok acc
+    | e :: r =>
+        do i <- bjoin (map_face m (i_minus e)) (map_face m (i_plus e)) (i_ornt e);
+        go r (dict_set (mkIface (i_name e) (i_minus i) (i_plus i) (i_ornt i)) acc)
+    end.
+
+Lemma bjoin_ornt fm fp o i : bjoin fm fp o = Ok i -> i_ornt i = o /\ i_minus i = fm /\ i_plus i = fp.
+Proof.
+  unfold bjoin. destruct (negb (Nat.eqb (p_dim (f_patch fm)) (p_dim (f_patch fp)))); [discriminate|].
+  destruct (Nat.eqb (p_dim (f_patch fm)) 3).
+  - destruct o; simpl; try discriminate.
+    destruct (negb (Nat.eqb (f_axis fm) (f_axis fp))); [discriminate|]. intros H; inversion H; auto.
+  - simpl. destruct (negb (Nat.eqb (f_axis fm) (f_axis fp))); [discriminate|]. intros H; inversion H; auto.
+Qed.
+
+Lemma In_dict_set i j l : In i (dict_set j l) -> i = j \/ In i l.
+Proof.
+  induction l as [|k r IH]; simpl; intros H.
+  - destruct H as [H|[]]; auto.
+  - destruct (String.eqb (i_name k) (i_name j)).
+    + destruct H as [H|H]; auto.
+    + destruct H as [H|H]; auto. destruct (IH H); auto.
+Qed.
+
+(* every interface of the mapped domain is the image of an interface of the argument, with the same name and
+   the same orientation *)
+Definition image_of (m : string) (l : list iface) (i : iface) : Prop :=
+  exists e, In e l /\ i_name i = i_name e /\ i_ornt i = i_ornt e /\
+            i_minus i = map_face m (i_minus e) /\ i_plus i = map_face m (i_plus e).
+
+Lemma map_conn_go_image m : forall l acc out all,
+  map_conn_go m l acc = Ok out -> (forall e, In e l -> In e all) ->
+  (forall i, In i acc -> image_of m all i) -> forall i, In i out -> image_of m all i.
+Proof.
+  induction l as [|e r IH]; simpl; intros acc out all H Hl Ha i Hi.
+  - inversion H; subst out. auto.
+  - destruct (bjoin (map_face m (i_minus e)) (map_face m (i_plus e)) (i_ornt e)) as [b|] eqn:E; simpl in H; [|discriminate].
+    destruct (bjoin_ornt _ _ _ _ E) as (Ho & Hm & Hp).
+    apply (IH _ out all H).
+    + intros e0 He0. apply Hl. right. exact He0.
+    + intros k Hk. apply In_dict_set in Hk. destruct Hk as [Hk|Hk].
+      * subst k. exists e. simpl. repeat split; auto.
+      * apply Ha. exact Hk.
+    + exact Hi.
+Qed.
+
+Theorem map_domain_keeps_orientation m d D :
+  map_domain m d = Ok D -> forall i, In i (d_conn D) -> image_of m (interfaces d) i.
+Proof.
+  unfold map_domain. destruct (existsb is_mapped (d_interiors d)); [discriminate|].
+  fold (map_conn_go m).
+  destruct (map_conn_go m (interfaces d) []) as [c|] eqn:E; simpl; [|discriminate].
+  intros H; inversion H; subst D; simpl. intros i Hi.
+  eapply (map_conn_go_image m _ [] c (interfaces d) E); auto. intros ? [].
+Qed.
+
 Definition joined_m1 : res domain :=
   join [ncube_domain sqA; ncube_domain sqB]
        [ mkConn (mkSide (PIdx 0) 0 1) (mkSide (PIdx 1) 0 (-1)) (Some (O2 (-1))) ] "J".
 
-Theorem map_joined_orientation_refuted :
+Theorem map_joined_orientation_kept :
   exists J D L, joined_m1 = Ok J /\ map_domain "M" J = Ok D /\ d_logical D = Some L /\
-    map i_ornt (d_conn L) = [O2 (-1)] /\ map i_ornt (d_conn D) = [ONone].
+    map i_ornt (d_conn L) = [O2 (-1)] /\ map i_ornt (d_conn D) = [O2 (-1)].
 Proof.
   destruct joined_m1 as [J|] eqn:E; [|vm_compute in E; discriminate].
   vm_compute in E. inversion E; subst J. clear E.
@@ -1807,16 +1868,17 @@ Proof.
   split; [reflexivity|]. split; reflexivity.
 Qed.
 
-(* ... and raises in 3-D (tuple(None) in Interface.__new__) *)
+(* ... and in 3-D (the default orientation given by Domain.join is passed on) *)
 Definition cbA : patch := mkPatch "A" None 3 ["0"; "0"; "0"] ["1"; "1"; "1"].
 Definition cbB : patch := mkPatch "B" None 3 ["0"; "0"; "0"] ["1"; "1"; "1"].
-Theorem map_joined_3d_refuted :
-  exists J, join [ncube_domain cbA; ncube_domain cbB]
+Theorem map_joined_3d_ok :
+  exists J D, join [ncube_domain cbA; ncube_domain cbB]
                  [ mkConn (mkSide (PIdx 0) 0 1) (mkSide (PIdx 1) 0 (-1)) None ] "J" = Ok J
-            /\ map_domain "M" J = Err EType.
+            /\ map_domain "M" J = Ok D /\ map i_ornt (d_conn D) = map i_ornt (d_conn J) /\ length (d_conn D) = 1.
 Proof.
   destruct (join [ncube_domain cbA; ncube_domain cbB] _ "J") as [J|] eqn:E; [|vm_compute in E; discriminate].
-  exists J. split; [reflexivity|]. vm_compute in E. inversion E; subst J. vm_compute. reflexivity.
+  vm_compute in E. inversion E; subst J. clear E.
+  eexists. eexists. split; [reflexivity|]. split; [vm_compute; reflexivity|]. split; reflexivity.
 Qed.
 
 (* two mappings applied to the same logical patch (the example in the docstring of Domain.join):
